@@ -34,6 +34,10 @@ import (
 // All returned errors can be used as description in an OAuth2 error.
 func validatePresentationSigner(presentation vc.VerifiablePresentation, expectedCredentialSubjectDID did.DID) (*did.DID, error) {
 	if len(presentation.VerifiableCredential) == 0 {
+		// a presentation without credentials must still be signed by the same party as the other presentations
+		if signer, err := credential.PresentationSigner(presentation); err == nil && !expectedCredentialSubjectDID.Empty() && !signer.Equals(expectedCredentialSubjectDID) {
+			return nil, errors.New("not all presentations have the same credential subject ID")
+		}
 		return credential.PresentationSigner(presentation)
 	}
 	subjectDID, err := credential.PresenterIsCredentialSubject(presentation)
